@@ -103,16 +103,17 @@ class Client(ModelObj):
         route = self.routes.get(self.i) if self.routes else None
         if route and route != "direct" and k in ("tell", "ask", "tell_t", "ask_t", "stop", "kill", "is_alive") and op[1] in self.refs and self.refs[op[1]].value is not MOVED:
             return self.start_erased(it, op, route)
-        if k in ("tell", "ask", "tell_t", "ask_t", "ask_join", "stop", "kill", "is_alive", "downgrade", "btell", "bask", "btell_t", "bask_t", "tell_blocking", "ask_blocking") and (
+        if k in ("tell", "ask", "tell_t", "ask_t", "tell_c", "ask_c", "ask_join", "stop", "kill", "is_alive", "downgrade", "btell", "bask", "btell_t", "bask_t", "tell_blocking", "ask_blocking") and (
                 op[1] not in self.refs or self.refs[op[1]].value is MOVED):
             return ("val", "skipped:no-reference")
         if k in ("tellv", "askv"):
             # explicit message value (macro corpus)
             return ("fut", w.call_method(it, "ActorRef", "tell" if k == "tellv" else "ask", [self.ref(op[1]), op[2]]))
-        if k in ("tell", "ask", "tell_t", "ask_t", "ask_join"):
+        if k in ("tell", "ask", "tell_t", "ask_t", "ask_join", "tell_c", "ask_c"):
             msg = w.mk_msg(op[2]) if k != "ask_join" else Agg("struct", "Spawning", [IntV(op[2], 8)])
             args = [self.ref(op[1]), msg]
-            meth = {"tell": "tell", "ask": "ask", "tell_t": "tell_with_timeout", "ask_t": "ask_with_timeout", "ask_join": "ask_join"}[k]
+            meth = {"tell": "tell", "ask": "ask", "tell_t": "tell_with_timeout", "ask_t": "ask_with_timeout", "ask_join": "ask_join",
+                    "tell_c": "tell", "ask_c": "ask"}[k]
             if k.endswith("_t"):
                 args.append(w.mk_duration(op[3]))
             via = op[4] if len(op) > 4 else None
@@ -122,10 +123,23 @@ class Client(ModelObj):
             meth = {"btell": "blocking_tell", "btell_t": "blocking_tell", "bask": "blocking_ask", "bask_t": "blocking_ask",
                     "tell_blocking": "tell_blocking", "ask_blocking": "ask_blocking"}[k]
             to = mk_none() if k in ("btell", "bask") else mk_some(w.mk_duration(op[3]))
+            saved = getattr(w, "plain_thread", False)
+            w.plain_thread = True
             try:
-                r = w.call_method(it, "ActorRef", meth, [self.ref(op[1]), w.mk_msg(op[2]), to])
+                if route and route != "direct" and meth in ("blocking_tell", "blocking_ask"):
+                    fam = "tell" if meth == "blocking_tell" else "ask"
+                    h = self.erased(it, op[1], fam, route)
+                    if h is None:
+                        return ("val", "skipped:upgrade-failed")
+                    self.tmp_handles.append(h)
+                    trait = {"tell": "TellHandler", "ask": "AskHandler"}[fam]
+                    r = w.call(it, "<dyn %s as %s>::%s" % (trait, trait, meth), [Ref(h.cell, (), False), w.mk_msg(op[2]), to], None)
+                else:
+                    r = w.call_method(it, "ActorRef", meth, [self.ref(op[1]), w.mk_msg(op[2]), to])
             except BlockedForever:
                 r = "BLOCKED-FOREVER"
+            finally:
+                w.plain_thread = saved
             return ("val", r)
         if k == "stop":
             return ("fut", w.call_method(it, "ActorRef", "stop", [self.ref(op[1])]))
@@ -264,6 +278,21 @@ class Client(ModelObj):
             self.cur = None
             self.finish_op(it, op, r.fields[0])
 
+    def can_cancel(self):
+        """the operation in flight is a cancellable one (tell_c / ask_c) that has been polled and
+        is pending: its future may be dropped at any moment (select!, timeout, abort)"""
+        return self.cur is not None and self.i < len(self.ops) and self.ops[self.i][0] in ("tell_c", "ask_c")
+
+    def cancel(self, it):
+        op = self.ops[self.i]
+        it.ex.event(ev="op_cancel", client=self.name, i=self.i, clock=self.sim.tick())
+        fut, self.cur = self.cur, None
+        it.drop_value(fut)
+        self.finish_op(it, op, "cancelled")
+        # the client goes on with its next operation; the step conflicts with everything
+        self.task.self_wake = True
+        self.sim.w.cur_fp[("*",)] = "w"
+
     def finish_op(self, it, op, v):
         w = self.sim.w
         while self.tmp_handles:
@@ -355,6 +384,7 @@ class Sim:
     def client(self, name, ops, actors, keep_refs=False):
         c = Client(self, name, ops, actors, keep_refs)
         t = W.Task(self.w, "client:" + name, c)
+        c.task = t
         self.clients[name] = c
         self.ex.event(ev="setup_client", name=name)
         return c
